@@ -118,16 +118,18 @@ func Send[T any](c chan<- T, v T) {
 }
 
 // WaitSelect is inserted in front of a select statement without default
-// whose cases are all receives: it parks until one of the channels is ready,
-// so that the native select cannot block. Channels are passed as interface
-// values (any channel type).
-func WaitSelect(chans ...interface{}) {
+// whose cases are all receives: it parks until one of the channels is ready
+// and returns the index (into chans) of the case that is to be taken. When
+// several are ready the choice is drawn from the picker, because the Go
+// runtime would choose at random. The transformed select masks the other
+// cases with Only(). Without simulation it returns -2 (no masking).
+func WaitSelect(chans ...interface{}) int {
 	s := active.Load()
 	if s == nil {
-		return
+		return -2
 	}
-	ptrs := make([]unsafe.Pointer, 0, len(chans))
-	for _, c := range chans {
+	ptrs := make([]unsafe.Pointer, len(chans))
+	for i, c := range chans {
 		if c == nil {
 			continue
 		}
@@ -138,11 +140,11 @@ func WaitSelect(chans ...interface{}) {
 		if v.IsNil() {
 			continue
 		}
-		ptrs = append(ptrs, v.UnsafePointer())
+		ptrs[i] = v.UnsafePointer()
 	}
 	anyReady := func() bool {
 		for _, p := range ptrs {
-			if recvReadyPtr(p) {
+			if p != nil && recvReadyPtr(p) {
 				return true
 			}
 		}
@@ -153,13 +155,64 @@ func WaitSelect(chans ...interface{}) {
 		if !anyReady() {
 			panic(killedSentinel{})
 		}
-		return
+		return -2
 	}
 	s.SelectWaits++
 	s.park("Select("+itoa(len(ptrs))+")", anyReady)
+	return s.chooseReady(ptrs)
 }
 
-// SelectYield is inserted in front of a select statement with a default case.
+func (s *Sched) chooseReady(ptrs []unsafe.Pointer) int {
+	var ready []int
+	for i, p := range ptrs {
+		if p != nil && recvReadyPtr(p) {
+			ready = append(ready, i)
+		}
+	}
+	if len(ready) == 0 {
+		return -1
+	}
+	if len(ready) == 1 {
+		return ready[0]
+	}
+	s.SelectRaces++
+	k := s.picker.ChooseBranch(len(ready))
+	s.trace(s.cur, "select-branch "+itoa(ready[k]))
+	return ready[k]
+}
+
+// PollSelect is inserted in front of a select statement with a default case:
+// a scheduling point that returns the index of the ready receive case to take
+// (-1: none ready, take the default; -2: no simulation, no masking).
+func PollSelect(chans ...interface{}) int {
+	s := active.Load()
+	if s == nil || inert(s) {
+		return -2
+	}
+	s.park("SelectDefault", nil)
+	ptrs := make([]unsafe.Pointer, len(chans))
+	for i, c := range chans {
+		if c == nil {
+			continue
+		}
+		v := reflect.ValueOf(c)
+		if v.Kind() == reflect.Chan && !v.IsNil() {
+			ptrs[i] = v.UnsafePointer()
+		}
+	}
+	return s.chooseReady(ptrs)
+}
+
+// Only masks the receive cases that were not chosen: a nil channel is never
+// ready in a select.
+func Only[T any](sel, i int, c <-chan T) <-chan T {
+	if sel == -2 || sel == i {
+		return c
+	}
+	return nil
+}
+
+// SelectYield is kept for selects whose only non-default cases are sends.
 func SelectYield() {
 	if s := active.Load(); s != nil && !inert(s) {
 		s.park("SelectDefault", nil)
